@@ -25,11 +25,32 @@ def gen(rng, tier):
         k = rng.choice([1, 2, 2, 3])
         cases.append({"args": [k, gen_script(rng, 5 if tier == "quick" else 6, 3 if tier == "quick" else 5)],
                       "env": sched_env(rng, budget=400000)})
+    # crowds: 130-300 fibers contend for the mutex at once (the counter goes below -127 / -255)
+    for nf in ([130, 260] if tier == "quick" else [129, 130, 257, 260, 300]):
+        fibers = ["l,u"] * nf
+        for _ in range(rng.randrange(0, 5)):
+            fibers[rng.randrange(nf)] = rng.choice(["t,u,l,u", "l,u,l,u", "y,l,u"])
+        cases.append({"args": [rng.choice([1, 2]), "|".join(fibers)], "timeout": 300,
+                      "env": {"VR_SEED": rng.randrange(1, 1 << 30), "VR_SCHED": "rand", "VR_SWITCH": 4, "VR_BUDGET": 8000000, "VR_MAXEV": 6000000}})
     return cases
+
+
+import os as _os
+import sys as _sys
+
+_sys.path.insert(0, _os.path.join(_os.path.dirname(_os.path.dirname(_os.path.abspath(__file__))), "extract"))
+import wake_extract  # noqa: E402
+
+
+def pre(repo):
+    """translator step (facts no trace shows): the manager's wake loops wait without bound for an
+    announced waiter and wake exactly the number asked for"""
+    wake_extract.check(repo)
 
 
 SPEC = {
     "C03": {
+        "pre": pre,
         "extra_props": ("AbsQueue",),
         "parts": [{"name": "mutex", "harness": "mutex", "model": "Mutex", "runtime": True, "gen": gen,
                    "nontrivial": lambda s: s["hist"].get("xchg tail", 0) >= 1}],
